@@ -202,13 +202,14 @@ def h_cli_add(axis_cfg):
     M = env.module('biom.cli.metadata_adder')
     t, a = make_table(2, 2, md=pick(['none', 'both'], 'md'), zeros=0, unsorted=False, layouts=('csr',), type_='OTU table')
     s_lines = ['#SampleID\tdepth\tsite\tlist\n', f'{a.samp_ids[0]}\t7\tgut\ta; b\n', 'unknown-sample\t1\tx\ty\n',
-               f'{a.samp_ids[1]}\t2.5\tsoil\tc\n']
+               f'{a.samp_ids[1]}\t2.5\tsoil\tc|d; e\n']
     o_lines = ['#OTUID\ttaxonomy\tscore\n', f'{a.obs_ids[1]}\tk__A; p__B\t3\n', f'{a.obs_ids[0]}\tk__C\tnot-a-number\n']
     use_s = axis_cfg in ('sample', 'both')
     use_o = axis_cfg in ('observation', 'both')
     s_hdr = pick([None, ['id', 'D'], ['id', 'D', 'S', 'L']], 'sample-header') if use_s else None
     o_hdr = pick([None, ['id', 'TAX']], 'observation-header') if use_o else None
     sc = pick([None, ['list', 'taxonomy', 'TAX', 'L']], 'sc-separated')
+    pipe = pick([None, ['list', 'L']], 'sc-pipe-separated') if sc is None else None      # values with and without a '|'
     ints = pick([None, ['depth', 'score', 'D']], 'int-fields')
     floats = pick([None, ['depth', 'D']], 'float-fields') if ints is None else None
     via = pick(['helper', 'click-callback'], 'via')
@@ -218,7 +219,7 @@ def h_cli_add(axis_cfg):
         return [l for l in lines if not (hdr is not None and l.startswith('#'))]
     if via == 'helper':
         r, e = call(lambda: M._add_metadata(t, lines_for(s_lines, s_hdr) if use_s else None, lines_for(o_lines, o_hdr) if use_o else None,
-                                            sc_separated=sc, int_fields=ints, float_fields=floats,
+                                            sc_separated=sc, sc_pipe_separated=pipe, int_fields=ints, float_fields=floats,
                                             sample_header=s_hdr, observation_header=o_hdr))
     else:
         # the command itself: options arrive as comma separated strings, files are opened by path (I/O stubbed)
@@ -231,7 +232,7 @@ def h_cli_add(axis_cfg):
         as_json = flag('output-as-json')
         _, e = call(lambda: M.add_metadata.callback(
             input_fp='in.biom', output_fp='out.biom', sample_metadata_fp='samples.txt' if use_s else None,
-            observation_metadata_fp='observations.txt' if use_o else None, sc_separated=join(sc), sc_pipe_separated=None,
+            observation_metadata_fp='observations.txt' if use_o else None, sc_separated=join(sc), sc_pipe_separated=join(pipe),
             int_fields=join(ints), float_fields=join(floats), sample_header=join(s_hdr), observation_header=join(o_hdr),
             output_as_json=as_json))
         r = written[0][0] if written else None
@@ -244,6 +245,8 @@ def h_cli_add(axis_cfg):
     def conv(col, v):
         if sc and col in sc:
             return [x.strip() for x in v.split(';')]
+        if pipe and col in pipe:
+            return [[x.strip() for x in y.split(';')] for y in v.split('|')]
         for fields, f in ((ints, int), (floats, float)):
             if fields and col in fields:
                 try:
@@ -280,7 +283,23 @@ def h_cli_add(axis_cfg):
         fail('cli-add:no-mapping-accepted', '', **sig)
 
 
-HARNESSES = {'add': h_add, 'del': h_del, 'mapping_file': h_mapping_file, 'cli_add': h_cli_add}
+def h_mapping_quotes():
+    """double quotes are dropped wherever they stand in a field (edges, inside, around parts of a list), blanks outside them too"""
+    import sx.env as env
+    P = env.module('biom.parse')
+    rows = [('s1', 'say "hi"', '"k__A"; "p__B"'), ('s2', ' "ACGT" ', '"x"'), ('"s3"', 'plain', 'a"b"c')]
+    lines = ['#SampleID\t"note"\ttax\n'] + ['\t'.join(r) + '\n' for r in rows]
+    r, e = call(lambda: P.MetadataMap.from_file(lines))
+    if e is not None:
+        fail('mapfile-quotes:raised', repr(e)[:150])
+        return
+    want = {'s1': {'note': 'say hi', 'tax': 'k__A; p__B'}, 's2': {'note': 'ACGT', 'tax': 'x'}, 's3': {'note': 'plain', 'tax': 'abc'}}
+    got = {k: dict(v) for k, v in r.items()}
+    if got != want:
+        fail('mapfile-quotes:relation', f"{got}"[:200])
+
+
+HARNESSES = {'mapping_quotes': h_mapping_quotes, 'add': h_add, 'del': h_del, 'mapping_file': h_mapping_file, 'cli_add': h_cli_add}
 VARIANTS = ['plain', 'comments', 'short-rows', 'quoted', 'header-override', 'process-fns']
 
 
@@ -299,6 +318,7 @@ def jobs(tier):
             out.append(('mapping_file', (2, 3, v)))
     for cfg in ('sample', 'observation', 'both'):
         out.append(('cli_add', (cfg,)))
+    out.append(('mapping_quotes', ()))
     return out
 
 
